@@ -3,6 +3,7 @@ package main
 import (
 	"fmt"
 	"go/token"
+	"go/types"
 	"sort"
 	"strings"
 
@@ -1077,4 +1078,330 @@ func ruleMapKeyPlain(c *Ctx) {
 	c.Oblige("T.mapkey-plain", tests, f.Pos(), name, "the object form is used only for keys without explicit presence",
 		"string-keyed maps are objects, other maps key/value lists: map[*string]T and map[null.String]T also have FieldTypeString keys, but two distinct keys can have the same text (two pointers to \"a\"; the invalid and the valid empty null.String), which gives an object with duplicate member names", nil)
 	c.Floor("T.mapkey-plain", 1)
+}
+
+// ---------------------------------------------------------------------------
+// round 5
+
+// mentionsAssert: f (or a module function it calls, depth <= 3) type-asserts to a type of that name.
+func mentionsAssert(f *ssa.Function, tname string, depth int, seen map[*ssa.Function]bool) bool {
+	if f == nil || depth > 3 || seen[f] {
+		return false
+	}
+	seen[f] = true
+	for _, b := range f.Blocks {
+		for _, in := range b.Instrs {
+			if ta, ok := in.(*ssa.TypeAssert); ok && typeName(ta.AssertedType) == tname {
+				return true
+			}
+			if call, ok := in.(*ssa.Call); ok {
+				if cal := call.Common().StaticCallee(); cal != nil && cal.Pkg != nil && inModule(cal.Pkg.Pkg) {
+					if mentionsAssert(cal, tname, depth+1, seen) {
+						return true
+					}
+				}
+			}
+		}
+	}
+	return false
+}
+
+// ruleNewFresh: T.new-fresh - New() of every codec hands out memory nobody else has.
+func ruleNewFresh(c *Ctx) {
+	p := c.P
+	n := 0
+	for _, ct := range p.Codecs {
+		mr, ok := ct.Methods["New"]
+		if !ok || mr.Fn == nil {
+			continue
+		}
+		f := p.SSA.FuncValue(mr.Fn)
+		if f == nil || len(f.Blocks) == 0 {
+			continue
+		}
+		n++
+		bad := ""
+		for _, b := range f.Blocks {
+			ret, ok := b.Instrs[len(b.Instrs)-1].(*ssa.Return)
+			if !ok || len(ret.Results) != 1 {
+				continue
+			}
+			v := ret.Results[0]
+			// delegation to another codec's New is fine (checked there)
+			if call, ok := v.(*ssa.Call); ok {
+				cc := call.Common()
+				if cc.IsInvoke() && cc.Method.Name() == "New" {
+					continue
+				}
+				if cal := cc.StaticCallee(); cal != nil && cal.Name() == "New" && inModule(cal.Pkg.Pkg) {
+					continue
+				}
+			}
+			r := rootOf(v)
+			fresh := r.kind == rkFresh
+			if al, ok := r.base.(*ssa.Alloc); ok && al.Heap && r.loaded == 0 {
+				fresh = true // new(T) / &T{}
+			}
+			if !fresh {
+				bad = "returns memory rooted in " + r.kindOnly()
+			}
+		}
+		c.Oblige("T.new-fresh", bad == "", f.Pos(), ct.Name, "New() returns freshly allocated memory",
+			"New() supplies the target a nil pointer is pointed at before decoding into it: it must be a new allocation every time - a package-level or codec-owned object would be shared by every decoded value (a later decode rewrites an earlier result)"+map[bool]string{true: "", false: "; " + bad}[bad == ""], nil)
+	}
+	c.Floor("T.new-fresh", 20)
+}
+
+// ruleNullOnlyForPresence: T.null-presence - the walker writes null only for a value that can be absent.
+func ruleNullOnlyForPresence(c *Ctx) {
+	p := c.P
+	n := 0
+	for _, f := range p.moduleFuncs() {
+		if recvTypeName(f) != "Descriptor" || len(f.Blocks) == 0 {
+			continue
+		}
+		fname := ssaFuncName(f)
+		for _, b := range f.Blocks {
+			for _, in := range b.Instrs {
+				call, ok := in.(*ssa.Call)
+				if !ok {
+					continue
+				}
+				cc := call.Common()
+				if !cc.IsInvoke() || cc.Method.Name() != "Raw" || typeName(cc.Value.Type()) != "Outputter" || len(cc.Args) != 1 || !isConstString(cc.Args[0], "null") {
+					continue
+				}
+				n++
+				conds, truths := controllingConds(b)
+				good := false
+				for i, cd := range conds {
+					// ExplicitPresence of the element being rendered
+					if u, ok := cd.(*ssa.UnOp); ok && u.Op == token.MUL && truths[i] {
+						if fa, ok := u.X.(*ssa.FieldAddr); ok && fieldName(fa) == "ExplicitPresence" {
+							good = true
+						}
+					}
+					// the JSON type code for nil
+					if bo, ok := cd.(*ssa.BinOp); ok && bo.Op == token.EQL && truths[i] {
+						for _, o := range []ssa.Value{bo.X, bo.Y} {
+							if k, ok := o.(*ssa.Const); ok && typeName(k.Type()) == "jsonType" {
+								good = true
+							}
+						}
+					}
+				}
+				c.Oblige("T.null-presence", good, call.Pos(), fname, "null is output only for an element with explicit presence (or the JSON nil code)",
+					"a value that is missing from the data stands for the zero value unless the field can be absent: null is right for pointers and null types only - for a plain int, string or slice the walker must render 0, \"\" or [] (map[string]int{\"zero\": 0} must not become {\"zero\": null})", nil)
+			}
+		}
+	}
+	c.Floor("T.null-presence", 2)
+}
+
+// ruleMapEntryShape: T.mapentry-shape - what counts as a map (entry) for the object rendering.
+func ruleMapEntryShape(c *Ctx) {
+	p := c.P
+	for _, spec := range []struct {
+		fn   string
+		want []string
+	}{
+		{"plenccodec.Descriptor.isValidJSONMapEntry", []string{"Type", "LogicalType", "Elements", "ExplicitPresence"}},
+		{"plenccodec.Descriptor.isValidJSONMap", []string{"Type", "LogicalType", "Elements"}},
+	} {
+		f := p.ssaFunc(spec.fn)
+		if f == nil {
+			c.Oblige("T.mapentry-shape", false, token.NoPos, spec.fn, "function", "not found", nil)
+			continue
+		}
+		tested := map[string]bool{}
+		var mark func(v ssa.Value, depth int)
+		mark = func(v ssa.Value, depth int) {
+			if depth > 5 || v == nil {
+				return
+			}
+			switch x := v.(type) {
+			case *ssa.UnOp:
+				if fa, ok := x.X.(*ssa.FieldAddr); ok {
+					tested[fieldName(fa)] = true
+				}
+				mark(x.X, depth+1)
+			case *ssa.BinOp:
+				mark(x.X, depth+1)
+				mark(x.Y, depth+1)
+			case *ssa.Call:
+				for _, a := range x.Common().Args {
+					mark(a, depth+1)
+				}
+			case *ssa.Phi:
+				for _, e := range x.Edges {
+					mark(e, depth+1)
+				}
+			}
+		}
+		for _, b := range f.Blocks {
+			if ifi, ok := b.Instrs[len(b.Instrs)-1].(*ssa.If); ok {
+				mark(ifi.Cond, 0)
+			}
+			if ret, ok := b.Instrs[len(b.Instrs)-1].(*ssa.Return); ok {
+				for _, r := range ret.Results {
+					mark(r, 0)
+				}
+			}
+		}
+		var missing []string
+		for _, w := range spec.want {
+			if !tested[w] {
+				missing = append(missing, w)
+			}
+		}
+		c.Oblige("T.mapentry-shape", len(missing) == 0, f.Pos(), spec.fn, "tests "+strings.Join(spec.want, ", "),
+			"the object rendering is for maps only: a two-field struct that starts with a string has the same shape as a string-keyed map entry and is told apart by the LogicalType alone; dropping one of the tests renders ordinary structs as bare key/value pairs"+
+				map[bool]string{true: "", false: "; not tested: " + strings.Join(missing, ", ")}[len(missing) == 0], nil)
+	}
+	c.Floor("T.mapentry-shape", 2)
+}
+
+// ruleLeadCountEmpty: X.leadcount.empty - empty data is the encoding of an empty container.
+func ruleLeadCountEmpty(c *Ctx) {
+	p := c.P
+	names := []string{"plenccodec.WTLengthSliceWrapper.Read", "plenccodec.MapCodec.Read", "plenccodec.JSONArrayCodec.Read", "plenccodec.JSONMapCodec.Read",
+		"plenccodec.Descriptor.readAsSlice", "plenccodec.Descriptor.readAsJSON"}
+	for _, name := range names {
+		f := p.ssaFunc(name)
+		if f == nil {
+			c.Oblige("X.leadcount.empty", false, token.NoPos, name, "function", "not found", nil)
+			continue
+		}
+		n := 0
+		for _, b := range f.Blocks {
+			for _, in := range b.Instrs {
+				cn, call := staticCalleeName(in)
+				if call == nil || cn != "plenccore.ReadVarUint" {
+					continue
+				}
+				if prm, ok := call.Common().Args[0].(*ssa.Parameter); !ok || !isByteSlice(prm.Type()) {
+					continue
+				}
+				var nres ssa.Value
+				for _, r := range *call.Referrers() {
+					if ex, ok := r.(*ssa.Extract); ok && ex.Index == 1 {
+						nres = ex
+					}
+				}
+				if nres == nil {
+					continue
+				}
+				n++
+				bad := false
+				for _, r := range *nres.Referrers() {
+					bo, ok := r.(*ssa.BinOp)
+					if !ok || !isZeroSSA(bo.Y) || bo.X != nres {
+						continue
+					}
+					for _, r2 := range *bo.Referrers() {
+						ifi, ok := r2.(*ssa.If)
+						if !ok {
+							continue
+						}
+						// which branch is taken for n == 0 ?
+						var zeroBranch *ssa.BasicBlock
+						switch bo.Op {
+						case token.LEQ, token.EQL, token.GEQ:
+							zeroBranch = ifi.Block().Succs[0]
+						case token.LSS, token.NEQ, token.GTR:
+							zeroBranch = ifi.Block().Succs[1]
+						}
+						if zeroBranch == nil {
+							continue
+						}
+						if ret, ok := zeroBranch.Instrs[len(zeroBranch.Instrs)-1].(*ssa.Return); ok && isFailureReturnLoose(f, ret) {
+							bad = true
+						}
+					}
+				}
+				c.Oblige("X.leadcount.empty", !bad, call.Pos(), name, "an empty body is read as an empty container, not rejected",
+					"a nil or empty slice, array or map at top level (and an omitted empty one inside a map entry) is encoded as no bytes at all: ReadVarUint reports n == 0 for it, and only n < 0 is an error - rejecting n <= 0 makes the typed decode or the walker fail on data the writer produces", nil)
+			}
+		}
+		if n == 0 {
+			c.Oblige("X.leadcount.empty", false, f.Pos(), name, "leading count read", "not found", nil)
+		}
+	}
+	c.Floor("X.leadcount.empty", 6)
+}
+
+// ruleInternSibling: T.intern-sibling - interning adds no rejection and no other source of strings.
+func ruleInternSibling(c *Ctx) {
+	p := c.P
+	in := p.ssaFunc("plenccodec.InternedStringCodec.Read")
+	pl := p.ssaFunc("plenccodec.StringCodec.Read")
+	if in == nil || pl == nil {
+		c.Oblige("T.intern-sibling", false, token.NoPos, "plenccodec.InternedStringCodec.Read", "functions", "not found", nil)
+		return
+	}
+	fails := func(f *ssa.Function) int {
+		n := 0
+		for _, b := range f.Blocks {
+			if ret, ok := b.Instrs[len(b.Instrs)-1].(*ssa.Return); ok && b != f.Recover && isFailureReturnLoose(f, ret) {
+				n++
+			}
+		}
+		return n
+	}
+	fi, fp := fails(in), fails(pl)
+	c.Oblige("T.intern-sibling", fi <= fp, in.Pos(), "plenccodec.InternedStringCodec.Read", "rejects nothing the plain string codec accepts",
+		fmt.Sprintf("an interned field decodes exactly what the same field decodes without the option: StringCodec.Read has %d error returns, InternedStringCodec.Read has %d - any additional rejection (of a wire type, a length) makes data readable only without the option", fp, fi), nil)
+	// sources of the stored string
+	bad := ""
+	for _, b := range in.Blocks {
+		for _, ins := range b.Instrs {
+			st, ok := ins.(*ssa.Store)
+			if !ok {
+				continue
+			}
+			if r := rootOf(st.Addr); r.kind != rkParam {
+				continue
+			}
+			if bt, ok := st.Val.Type().Underlying().(*types.Basic); !ok || bt.Kind() != types.String {
+				continue
+			}
+			seen := map[ssa.Value]bool{}
+			var leaves func(v ssa.Value)
+			leaves = func(v ssa.Value) {
+				if seen[v] {
+					return
+				}
+				seen[v] = true
+				switch x := v.(type) {
+				case *ssa.Phi:
+					for _, e := range x.Edges {
+						leaves(e)
+					}
+				case *ssa.Extract:
+					if lk, ok := x.Tuple.(*ssa.Lookup); ok && lk.CommaOk && x.Index == 0 {
+						return
+					}
+					bad = "a string from " + x.Tuple.String()
+				case *ssa.Call:
+					if cal := x.Common().StaticCallee(); cal != nil && cal.Name() == "addString" {
+						return
+					}
+					bad = "the result of " + x.String()
+				case *ssa.Convert:
+					if prm, ok := x.X.(*ssa.Parameter); ok && isByteSlice(prm.Type()) {
+						return
+					}
+					bad = "a conversion of " + x.X.Name()
+				case *ssa.Lookup:
+					return
+				default:
+					bad = fmt.Sprintf("a %T", v)
+				}
+			}
+			leaves(st.Val)
+		}
+	}
+	c.Oblige("T.intern-sibling", bad == "", in.Pos(), "plenccodec.InternedStringCodec.Read", "the decoded string is the table's entry for the input or a copy of the input",
+		"the only strings an interned field may produce are string(data) itself and the table entry found under it; a string from anywhere else (a precomputed table of short strings, a cache keyed differently) need not equal string(data)"+map[bool]string{true: "", false: "; here: " + bad}[bad == ""], nil)
+	c.Floor("T.intern-sibling", 2)
 }
